@@ -364,6 +364,16 @@ def apply_edit(pkg: M.Package, rng: Rng, kind: str, only=None, only_steps=None):
                     used.add(nv)
                     e.values[i] = (sym, nv)
         return "shrink_enum %s (removed %s)" % (e.name, ",".join(s_ for s_, _ in gone))
+    if kind == "widen_enum_base":
+        # (the documentation lists every change of an enum as incompatible; used for chains that are only judged if yardl accepts them)
+        wider = {"int8": ["int16", "int32", "int64"], "uint8": ["uint16", "uint32", "uint64", "size"], "int16": ["int32", "int64"], "uint16": ["uint32", "uint64"]}
+        es = [d for d in pkg.defs() if isinstance(d, Enum) and (only is None or d.name in only) and (d.base or "int32") in wider and not d.base_alias]
+        if not es:
+            return None
+        e = rng.choice(es)
+        old = e.base
+        e.base = rng.choice(wider[old])
+        return "widen_enum_base %s %s->%s" % (e.name, old, e.base)
     if kind == "change_enum":
         es = [d for d in pkg.defs() if isinstance(d, Enum) and not d.flags]
         if not es:
@@ -424,7 +434,7 @@ def evolve(pkg: M.Package, rng: Rng, n: int, kinds) -> tuple:
 RECORD_EDITS = ["add_optional_field", "remove_optional_field", "reorder_fields", "add_field", "remove_field", "widen_field", "make_optional", "widen_vector_field", "make_required"]
 
 
-def with_versions(pkg: M.Package, rng: Rng, n_versions: int, partial: bool, must_edit=(), order="oldest_first", p_new_protocol=0.0, layout="siblings", widen_steps=(), widen_aliases=(), union_steps=(), to_union_steps=(), tail_records=(), fixed_vector_records=(), reorder_only=()) -> M.Package:
+def with_versions(pkg: M.Package, rng: Rng, n_versions: int, partial: bool, must_edit=(), order="oldest_first", p_new_protocol=0.0, layout="siblings", widen_steps=(), widen_aliases=(), union_steps=(), to_union_steps=(), tail_records=(), fixed_vector_records=(), reorder_only=(), enum_bases=()) -> M.Package:
     """Treat pkg as the oldest version; evolve it n_versions times; the newest package lists all
     its predecessors under `versions:`.  Returns the newest package.
     must_edit: names of records that each get at least one record edit in every evolution step.
@@ -471,6 +481,11 @@ def with_versions(pkg: M.Package, rng: Rng, n_versions: int, partial: bool, must
         r8 = rng.fork("fixedvec", i)
         if partial and fixed_vector_records and r8.chance(0.6):
             d = apply_edit(cur, r8, "add_fixed_vector_field", only=tuple(fixed_vector_records))
+            if d:
+                l.append(d)
+        r10 = rng.fork("enumbase", i)
+        if enum_bases and r10.chance(0.7):
+            d = apply_edit(cur, r10, "widen_enum_base", only=tuple(enum_bases))
             if d:
                 l.append(d)
         r9 = rng.fork("reorderonly", i)
